@@ -201,6 +201,13 @@ PolyDivPure(a, m) == IF NormPure(m) = <<>> THEN <<>> ELSE PolyDivModRec(a, m, <<
 PolyMod(a, m) == PolyModPure(a, m)
 PolyDiv(a, m) == PolyDivPure(a, m)
 
+(* ---------------------------- representation ----------------------------- *)
+\* Tup(f) = f.  TLC keeps [i \in 1..n |-> e] as an unevaluated lambda whose body
+\* is re-evaluated at every application; chains of such functions (hash rounds)
+\* then cost exponential time.  The override returns the same function as an
+\* explicit tuple; the value is unchanged.
+Tup(f) == f
+
 (* ------------------------------ byte strings ---------------------------- *)
 
 \* fixed-length little-endian encoding (value must be < 256^n)
